@@ -33,8 +33,8 @@ func limitedCallsOf(v ssa.Value, seen map[ssa.Value]bool, out *[]*ssa.Call) {
 func init() {
 	core.Register(&core.Rule{
 		Name: "R-DECLINESTART",
-		Doc: "A bounded reverse scan that declines hands over the whole question: (*lazy.DFA).SearchReverseLimited(cache, haystack, start, end, minStart) answers SearchReverseLimitedQuadratic when it would have to read below minStart, i.e. 'a match ending here may begin anywhere from start on, I did not look'. In every function of the module, on the branch taken when the scan's result equals that sentinel, (a) an NFA search is called (a method of nfa.PikeVM / nfa.BoundedBacktracker with a haystack argument) and (b) it begins where the declined scan was allowed to begin: a position argument of that search is the very value passed as `start` to the declined scan, and a search without position argument (Search, IsMatch: from 0) is only allowed when that start is the constant 0. Beginning at minStart or another loop-advanced bound - 'earlier candidates already covered that region' - loses the match that begins before a rejected candidate and spans over it (`.+\\.txt` on '.txtab.txt': [4 10] for [0 10]); beginning at 0 in a resumed search returns the previous match again (FindAll loops for ever). Necessary for C02, C04 (resumed searches), C11 and C12 (the guard changes speed only).",
-		Min: 8, NeedSSA: true,
+		Doc: "A bounded reverse scan that declines hands over the whole question: (*lazy.DFA).SearchReverseLimited(cache, haystack, start, end, minStart) answers SearchReverseLimitedQuadratic when it would have to read below minStart, i.e. 'a match ending here may begin anywhere from start on, I did not look'. In every function of the module, on the branch taken when the scan's result equals that sentinel, (a) an NFA search is called (a method of nfa.PikeVM / nfa.BoundedBacktracker with a haystack argument) and (b) it begins where the declined scan was allowed to begin: a position argument of that search is the very value passed as `start` to the declined scan, and a search without position argument (Search, IsMatch: from 0) is only allowed when that start is the constant 0. Beginning at minStart or another loop-advanced bound - 'earlier candidates already covered that region' - loses the match that begins before a rejected candidate and spans over it (`.+\\.txt` on '.txtab.txt': [4 10] for [0 10]); beginning at 0 in a resumed search returns the previous match again (FindAll loops for ever). (c) The result of every bounded scan is compared with the sentinel somewhere (through phis): dropping the test reads 'cut short' as 'no match'. Necessary for C02, C04 (resumed searches), C11 and C12 (the guard changes speed only).",
+		Min: 16, NeedSSA: true,
 		Run: func(p *core.Prog) *core.RuleResult {
 			res := &core.RuleResult{}
 			kc := core.NewKeyCounter()
@@ -62,6 +62,51 @@ func init() {
 				pk := ownPkg(fn)
 				if pk == nil || !p.InModule(pk) || strings.HasSuffix(p.File(fn.Pos()), "_test.go") {
 					continue
+				}
+				// (c) every bounded scan's result is tested against the sentinel
+				for _, b := range fn.Blocks {
+					for _, in := range b.Instrs {
+						c, ok := in.(*ssa.Call)
+						if !ok {
+							continue
+						}
+						var self []*ssa.Call
+						limitedCallsOf(c, map[ssa.Value]bool{}, &self)
+						if len(self) == 0 {
+							continue
+						}
+						tested := false
+						seen := map[ssa.Value]bool{}
+						var follow func(v ssa.Value, d int)
+						follow = func(v ssa.Value, d int) {
+							if tested || seen[v] || d > 4 || v.Referrers() == nil {
+								return
+							}
+							seen[v] = true
+							for _, r := range *v.Referrers() {
+								switch x := r.(type) {
+								case *ssa.BinOp:
+									for _, side := range []ssa.Value{x.X, x.Y} {
+										if k, ok := side.(*ssa.Const); ok && k.Value != nil && constant.Compare(k.Value, token.EQL, sentinel) && (x.Op == token.EQL || x.Op == token.NEQ) {
+											tested = true
+										}
+									}
+								case *ssa.Phi:
+									follow(x, d+1)
+								}
+							}
+						}
+						follow(c, 0)
+						o := core.Obligation{Key: kc.Key("R-DECLINESTART", core.FuncName(fn), "result of the bounded scan tested for 'cut short'"), Pos: p.Pos(c.Pos()), Nontrivial: true}
+						if tested {
+							o.Status = core.Discharged
+							o.Detail = "the result is compared with SearchReverseLimitedQuadratic"
+						} else {
+							o.Status = core.Violated
+							o.Detail = "the result of the bounded scan is never compared with SearchReverseLimitedQuadratic: 'I did not look below minStart' (-2) is read as 'no match here' (any negative value), and the match that begins below the guard is lost"
+						}
+						res.Obligations = append(res.Obligations, o)
+					}
 				}
 				for _, b := range fn.Blocks {
 					if len(b.Instrs) == 0 {
